@@ -15,6 +15,7 @@ from fractions import Fraction
 import numpy as np
 
 from vf import core
+from vf import errorpaths
 from vf.oracles import sourcearea as sa
 
 PROPERTY = "C20"
@@ -323,11 +324,13 @@ def run(ctx):
         for lo in range(0, nf6, 3):
             cases.append({"shape": [2, 3], "fvals": [0, 0.75, 3], "gvals": [0, 1, 2], "slice": [lo, lo + 3]})
     ctx.run_cases(case_rescale, cases, sub="rescale", chunksize=1)
+    errorpaths.run_threaded(ctx, case_rescale, cases[:2], threads=(2, 3, 4))
     pc = [{"shape": [2, 2], "fvals": [0, 1, 2, 4], "slice": [lo, lo + 16]} for lo in range(0, 4**4, 16)]
     pc += [{"shape": [2, 3], "fvals": [0, 1, 3], "slice": [lo, lo + 24]} for lo in range(0, 3**6, 24)]
     if ctx.tier != "quick":
         pc += [{"shape": [3, 3], "fvals": [0, 1, 2], "slice": [lo, lo + 200]} for lo in range(0, 3**9, 200)]
     ctx.run_cases(case_percentile, pc, sub="percentile", chunksize=1)
+    errorpaths.run_threaded(ctx, case_percentile, pc[:1], threads=(2, 3))
     ctx.run_cases(case_builtin, [{"seed": ctx.seed + k} for k in range(8)], sub="built-in base functions")
     ctx.run_cases(case_sparse_generic, [{"seed": ctx.seed + k} for k in range(16)], sub="support-at-p=1")
     ctx.rule = (
